@@ -160,7 +160,8 @@ def coq_sel(q, style):
     unq = style in ("unqualified", "unqualified_where")
     proj = "; ".join("PCol %s \"%s\" %s" % ("None" if unq else '(Some "%s")' % m, f, opt(a)) for m, f, a in q["fields"])
     table = "metrics" if style == "from_metrics" else ("orders" if unq else q["fields"][0][0])
-    filters = [norm_atom(x.replace("orders.", "") if style == "unqualified_where" else x) for x in q["filters"]]
+    # atoms as sqlglot prints them AFTER the rewriter's qualification step: an unqualified WHERE column belongs to the single FROM model (C05_filters_table pins that step)
+    filters = [norm_atom(x) for x in q["filters"]]
     w = "None"
     for a in reversed(filters):
         atom = '(WAtom "%s")' % a.replace('"', '""')
@@ -205,7 +206,7 @@ MALFORMED = [
     ("SELECT total_rev FROM metrics", 'show (rewrite G (S [PCol None "total_rev" None] (FromTable "metrics") false None [] None None false))'),
     ("SELECT * FROM orders", 'show (rewrite G (S [PStar] (FromTable "orders") false None [] None None false))'),
     ("SELECT status, revenue FROM orders WHERE status = 'a' OR channel = 'web'",
-     'show (rewrite G (S [PCol None "status" None; PCol None "revenue" None] (FromTable "orders") false (Some (WOr (WAtom "status = \'a\'") (WAtom "channel = \'web\'"))) [] None None false))'),
+     'show (rewrite G (S [PCol None "status" None; PCol None "revenue" None] (FromTable "orders") false (Some (WOr (WAtom "orders.status = \'a\'") (WAtom "orders.channel = \'web\'"))) [] None None false))'),
 ]
 
 
